@@ -862,6 +862,75 @@ def sorting_members(facts_list):
     return out
 
 
+SPARSE_CLASSES = ("FEAT::LAFEM::SparseVector", "FEAT::LAFEM::SparseVectorBlocked")
+
+
+def lazy_sort_accessors(facts_list):
+    """names of the parameterless, value-returning members of SparseVector(Blocked) that run the lazy sort step in at
+    least one instantiation (the siblings of that name must then do so in every class / perspective)"""
+    names = set()
+    for fx in facts_list:
+        for f in fx.functions:
+            if f.tk == "pattern" or strip_targs(f.cls) not in SPARSE_CLASSES or f.params or f.name == "sort":
+                continue
+            if fx.types[f.d.get("ret")] == "void" if f.d.get("ret") is not None else True:
+                continue
+            if any(n.get("k") == "MCall" and n.get("n") == "sort" and strip_targs(n.get("ccls", "")) in SPARSE_CLASSES for n in f.nodes()):
+                names.add(f.name)
+    return names
+
+
+def check_lazy_sort(ck, fn):
+    """E7.sort-before-read: every exit of a sorting accessor that returns container state has passed the lazy sort step"""
+    persp = perspective({"cfull": fn.full})
+    key = "%s::%s%s%s" % (short(fn.cls), fn.name, "<%s>" % persp if persp else "", " const" if fn.d.get("const") else "")
+    cfg = fn.cfg
+    if cfg is None:
+        ck.incomplete("E7.sort-before-read", "%s: no CFG" % key)
+        return
+    state_members = ("_scalar_index", "_elements", "_indices")
+    targets, rets = [], []
+    for b in cfg.blocks.values():
+        for e in b["el"]:
+            n = fn.by_id(e)
+            if n is not None and n.get("k") == "Return":
+                loc_ = Locals(fn)
+                exprs = [n.get("e")] + [loc_.var[y["d"]].get("init") for y in walk(n.get("e")) if y.get("k") == "Ref" and y.get("dk") == "local" and y.get("d") in loc_.var and loc_.var[y["d"]].get("init") is not None]
+                reads = any(y.get("k") == "Member" and y.get("n") in state_members for x_ in exprs for y in walk(x_))
+                calls = [y for y in walk(n.get("e")) if y.get("k") == "MCall" and objkey(y.get("obj")) == "this" and y.get("n") not in ("empty",)]
+                if reads:
+                    targets.append(b["id"])
+                    rets.append(n)
+                elif calls:
+                    ck.incomplete("E7.sort-before-read", "%s: return value `%s` is computed by another member (not modelled)" % (key, render(n.get("e"))[:60]))
+                    return
+    if not targets:
+        ck.incomplete("E7.sort-before-read", "%s: no exit returning container state found" % key)
+        return
+    # the lazy step: a condition that reads sorted() and controls a call of sort()
+    def is_step(n):
+        return any(y.get("k") == "MCall" and y.get("n") in ("sorted", "sort") and objkey(y.get("obj")) == "this" for y in walk(n))
+    step_blocks = set()
+    for b in cfg.blocks.values():
+        ids = list(b["el"]) + ([b["cond"]] if b.get("cond") is not None else [])
+        if any(fn.by_id(e) is not None and is_step(fn.by_id(e)) for e in ids):
+            step_blocks.add(b["id"])
+    has_sort = any(n.get("k") == "MCall" and n.get("n") == "sort" for n in fn.nodes())
+    reach = cfg.reachable(cfg.entry, avoid=step_blocks)
+    bad = [t for t in targets if t in reach]
+    problems = []
+    if not has_sort:
+        others = [n for n in fn.nodes() if is_call(n) and n.get("k") in ("Call", "MCall") and not (n.get("k") == "MCall" and n.get("n") in ("at", "empty", "size", "sorted"))]
+        if others:
+            ck.incomplete("E7.sort-before-read", "%s: no sort() call; whether `%s` performs the lazy sort is not modelled" % (key, render(others[0])[:50]))
+            return
+        problems.append("this instantiation never runs the lazy sort step although its siblings of the same name do")
+    for t in bad:
+        r = [n for n in rets if cfg.block_of(n["i"]) and cfg.block_of(n["i"])[0] == t]
+        problems.append("line %s: `%s` is returned on a path that has not passed `if(sorted() == 0) sort()`: the state is read before unsorted / duplicate entries are merged" % (r[0].get("l") if r else "?", render(r[0])[:70] if r else "return"))
+    ck.ob("E7.sort-before-read", key, not problems, "; ".join(problems) if problems else "%d state-returning exits, all behind the lazy sort step" % len(targets), fn.file, fn.line)
+
+
 def check_sparse_insert(ck, fn, sorters):
     """E7.no-resort-in-update: the element setter of a sparse vector clears the sorted flag and triggers no re-sort itself"""
     key = "%s::operator()(%s)" % (short(fn.cls), ",".join(p["n"] for p in fn.params))
@@ -1078,7 +1147,13 @@ def check_meta_method(ck, fn, recursive):
                 definite.append("%s().size<%s>() inside size<%s>()" % (pr, perspective(c), perspective({"cfull": fn.full})))
             args = c.get("a", [])
             used_meta = []
-            if len(args) != len(fn.params):
+            # every parameter of the operation is forwarded: a parameter that no argument of the sub-call mentions is replaced
+            # by the callee's default value (e.g. alpha = 1) - silently, because the call still compiles
+            mentioned = {y.get("d") for a_ in args for y in walk(loc.resolve(a_)) if y.get("k") == "Ref"} | {y.get("d") for a_ in args for y in walk(a_) if y.get("k") == "Ref"}
+            for d_, (k_, pn_) in own.items():
+                if d_ not in mentioned and name not in ("set_vec", "set_vec_inv"):
+                    definite.append("%s().%s(...) does not receive the parameter `%s` of the operation (a constant / the sub-vector's default value is passed instead)" % (pr, name, pn_))
+            if len(args) != len(fn.params) and not any("does not receive" in x for x in definite):
                 soft.append("%s().%s receives %d arguments for %d parameters" % (pr, name, len(args), len(fn.params)))
             for k, a in enumerate(args):
                 ap = projection(loc.resolve(a))
@@ -1114,6 +1189,8 @@ def check_meta_method(ck, fn, recursive):
                     elif own[r["d"]][0] != k:
                         definite.append("%s().%s: argument %d is the parameter `%s` (position %d)" % (pr, name, k, own[r["d"]][1], own[r["d"]][0]))
                     continue
+                if const_value(loc, a) is not None or r.get("k") in ("Int", "Float", "Bool"):
+                    continue        # a constant in place of a parameter: reported as "parameter not forwarded" above
                 soft.append("%s().%s: argument `%s` is neither a projected operand nor an unchanged parameter" % (pr, name, render(a)))
             if sorted(used_meta) != sorted(meta_params):
                 definite.append("%s().%s uses operands %s, the operation has %s (each exactly once)" % (pr, name, used_meta, meta_params))
@@ -1165,6 +1242,7 @@ def run(tier):
     ck.rule("E1.operands", "Arch call sites of DenseVector/DenseVectorBlocked/SparseVector(Blocked): the array slots carry the receiver and every vector parameter exactly once (receiver in the output slot r), the scalar slot carries the scalar parameter. Broken for: any x != y, alpha != 1.", 65)
     ck.rule("E1.extent", "the extent slot carries the number of entries of the arrays passed: size<P>() for dense, used_elements<P>() for sparse vectors, P = perspective of the arrays (pod arrays with pod extent), of the receiver or an operand asserted equal; set_vec/set_vec_inv copy counts likewise. Broken for: block size > 1 (only 1/BlockSize of the data processed or overrun), sparse vectors with fewer entries than their dimension.", 71)
     ck.rule("E1.size-bookkeeping", "every extent a DenseVectorBlocked / SparseVectorBlocked constructor, convert, read_from or insertion records in _elements_size for its pod array is a pod count (size<Perspective::pod>(), blocks x BlockSize, or the very count the array was allocated with) - what Container::format/_copy_content iterate over; all sites of a class agree. Broken for: format()/copy() on range views or freshly built blocked vectors with BlockSize > 1 (only 1/BlockSize of the scalars touched).", 17)
+    ck.rule("E7.sort-before-read", "the lazily sorting accessors of SparseVector / SparseVectorBlocked (elements<P>(), indices(), used_elements<P>(): every class, constness and perspective instantiation of a name that sorts in any sibling) return container state only on paths that passed `if(sorted()==0) sort()`. Broken for: vectors filled out of order or with repeated indices, read through the instantiation that skips the step (count before duplicates are merged -> min/max kernels read a stale tail).", 13)
     ck.rule("E7.no-resort-in-update", "the element setter operator()(index, value) of SparseVector / SparseVectorBlocked clears the sorted flag on every path and, until it returns, calls no member that (transitively) runs sort() - the function's own CAUTION comment. Broken for: the insertion that exceeds the allocated capacity when it updates an existing index or is not the largest index: the container stays flagged sorted with an unsorted / duplicated tail, so used_elements(), operator()(i) and min/max(_abs)_element read stale data.", 2)
     ck.rule("E1.block-guard", "component_copy/component_copy_to guard the block index against the stride they pass to the kernel (0 <= block < BlockSize). Broken for: vectors with fewer blocks than BlockSize (valid index rejected), block >= BlockSize on long vectors (out-of-bounds write accepted).", 4)
     ck.rule("E1.dispatch", "every Arch::X::value / value_blocked / value_to wrapper forwards each of its parameters to the like-named slot of the implementation it selects, on every path. Broken for: all callers of that kernel.", 42)
@@ -1185,6 +1263,7 @@ def run(tier):
     seen_fn = set()
     n_e0 = 0
     sorters = sorting_members(all_facts)
+    lazy_names = lazy_sort_accessors(all_facts)
     for facts in all_facts:
         ck.tu(facts)
         driver = facts.tu.startswith(featlib.VERIF)
@@ -1240,6 +1319,8 @@ def run(tier):
                         check_call_site(ck, fn, c)
                 if base in BLOCKED_CLASSES:
                     check_size_bookkeeping(ck, fn)
+                if base in SPARSE_CLASSES and fn.name in lazy_names and not fn.params:
+                    check_lazy_sort(ck, fn)
                 if base in ("FEAT::LAFEM::SparseVector", "FEAT::LAFEM::SparseVectorBlocked") and fn.name == "operator()" and len(fn.params) == 2 and not fn.d.get("const"):
                     check_sparse_insert(ck, fn, sorters)
                 if fn.name in ("set_vec", "set_vec_inv"):
